@@ -110,3 +110,123 @@ Proof. exact (@wf_run R3Ops). Qed.
 Print Assumptions C09_move_spec_R3.
 Print Assumptions C09_rotate_spec_R3.
 Print Assumptions C09_lengths_invariant_R3.
+
+(* ---- tie by translation: the statement-level flow of multi_anchor_behavior, path_padding, apply_move,
+   apply_rotation, move / _rotate / rotate / rotate_from_*, _init_position_orientation, the setters and
+   reset_path is re-derived from /repo on every run (Gen/GenPathFlow.v); it is the structure the hand
+   model was written against, and its pad widths / end indices / slices, interpreted, are the numbers
+   PathModel computes with. *)
+From Coq Require Import String.
+From MV Require Import Gen.GenPathFlow Model.L2Arith Model.PathFlow Proofs.PathFlowProofs.
+Open Scope string_scope.
+Open Scope Z_scope.
+
+Theorem C09_flow_translated : flow = expected_flow.
+Proof. exact flow_translated. Qed.
+
+Theorem C09_front_ends_translated : front_ends = expected_front_ends.
+Proof. exact front_ends_translated. Qed.
+
+(* every rotate_from_<x> is `rot = R.from_<x>(<its own parameters, unchanged>)` followed by
+   `return self.rotate(rot, anchor, start)` (the shape itself is enforced by the translator) *)
+Theorem C09_front_ends_passthrough :
+  forallb (fun fe => let '(_, _, cargs, rargs) := fe in passthrough cargs && rotate_call_ok rargs)
+          front_ends = true.
+Proof. exact front_ends_passthrough. Qed.
+
+Theorem C09_euler_front_end :
+  In ("rotate_from_euler", "from_euler", [("", "seq"); ("", "angle"); ("degrees", "degrees")],
+      [("", "rot"); ("anchor", "anchor"); ("start", "start")]) front_ends.
+Proof. exact euler_front_end. Qed.
+
+Section FlowSemantics.
+Context {O : RigidOps}.
+
+Theorem C09_multi_anchor_anchor_pad_translated : forall (a : inp V) (r : inp G),
+  len0 r >? len0 a = true ->
+  pads_as (ma_env (len0 r) (zlen (as_rows a))) e_ma_anchor_pad "anchor"
+    (fun B A => multi_anchor a r = (Vector (edge_pad vzero B A (as_rows a)), r)).
+Proof. exact multi_anchor_anchor_pad_translated. Qed.
+
+Theorem C09_multi_anchor_rot_pad_translated : forall (a : inp V) (r : inp G),
+  len0 r >? len0 a = false -> len0 r <? len0 a = true ->
+  pads_as (ma_env (zlen (as_rows r)) (len0 a)) e_ma_rot_pad "inrotQ"
+    (fun B A => multi_anchor a r = (a, Vector (edge_pad gone B A (as_rows r)))).
+Proof. exact multi_anchor_rot_pad_translated. Qed.
+
+Theorem C09_init_ori_pad_translated : forall (p : inp V) (r : option (inp G)),
+  zlen (as_rows p) >? zlen (ori_rows r) = true ->
+  pads_as (init_env (zlen (as_rows p)) (zlen (ori_rows r))) e_init_ori_pad "oriQ"
+    (fun B A => init_pose p r = {| pos := as_rows p; ori := edge_pad gone B A (ori_rows r) |}).
+Proof. exact init_ori_pad_translated. Qed.
+
+Theorem C09_init_pos_pad_translated : forall (p : inp V) (r : option (inp G)),
+  zlen (as_rows p) >? zlen (ori_rows r) = false -> zlen (as_rows p) <? zlen (ori_rows r) = true ->
+  pads_as (init_env (zlen (as_rows p)) (zlen (ori_rows r))) e_init_pos_pad "pos"
+    (fun B A => init_pose p r = {| pos := edge_pad vzero B A (as_rows p); ori := ori_rows r |}).
+Proof. exact init_pos_pad_translated. Qed.
+
+Theorem C09_path_padding_translated : forall (sc : bool) (lenvec : Z) (st : option Z) (o : obj),
+  let lenip := if sc then 1 else lenvec in
+  let '(ppath, opath, s, e, padded) := path_padding sc lenvec st o in
+  evalZb (bind "len(inpath)" lenvec env0) (bind "scalar_input" sc benv0) e_pp_lenip = Some lenip /\
+  evalZb (bind "len(ppath)" (zlen ppath) (bind "start" s (bind "lenip" lenip env0)))
+         (bind "scalar_input" sc benv0) e_pp_end = Some e /\
+  (callee e_pp_param, arg 0 e_pp_param, arg 1 e_pp_param, arg 2 e_pp_param, arg 3 e_pp_param) =
+    (PName "path_padding_param", PName "scalar_input", PCall (PName "len") [PName "ppath"] [],
+     PName "lenip", PName "start") /\
+  arg 1 (get "path_padding" "assign" "ppath" 1 flow) = PTuple [PName "padding"; PTuple [PInt 0; PInt 0]] /\
+  arg 1 (get "path_padding" "assign" "opath" 1 flow) = PTuple [PName "padding"; PTuple [PInt 0; PInt 0]].
+Proof. exact path_padding_translated. Qed.
+
+Theorem C09_parent_anchor_translated : forall (e s s2 la : Z),
+  get "apply_rotation" "if" "" 1 flow =
+    PBin "and" (PCmp "is" (PName "anchor") PNone) (PCmp "is not" (PName "parent_path") PNone) /\
+  evalZb (bind "end" e (bind "newstart" s env0)) benv0 e_ar_len_anchor = Some (e - s) /\
+  (callee e_ar_param, arg 0 e_ar_param, arg 1 e_ar_param, arg 2 e_ar_param, arg 3 e_ar_param) =
+    (PName "path_padding_param", PCmp "==" (PAttr (PName "inrotQ") "ndim") (PInt 1),
+     PSub (PAttr (PName "parent_path") "shape") (PInt 0), PName "len_anchor", PName "start") /\
+  exists elo ehi, slice_call e_ar_anchor = Some (PName "parent_path", elo, ehi) /\
+    evalZb (bind "start" s2 (bind "len_anchor" la env0)) benv0 elo = Some s2 /\
+    evalZb (bind "start" s2 (bind "len_anchor" la env0)) benv0 ehi = Some (s2 + la).
+Proof. exact parent_anchor_translated. Qed.
+
+End FlowSemantics.
+
+Print Assumptions C09_flow_translated.
+Print Assumptions C09_front_ends_translated.
+Print Assumptions C09_front_ends_passthrough.
+Print Assumptions C09_euler_front_end.
+Print Assumptions C09_multi_anchor_anchor_pad_translated.
+Print Assumptions C09_multi_anchor_rot_pad_translated.
+Print Assumptions C09_init_ori_pad_translated.
+Print Assumptions C09_init_pos_pad_translated.
+Print Assumptions C09_path_padding_translated.
+Print Assumptions C09_parent_anchor_translated.
+
+(* ---- the physical instance R^3 x SO(3) (Lib/RigidR3.v) *)
+From MV Require Import Lib.RigidR3.
+
+Theorem C09_multi_anchor_R3 : forall (a : inp (@V R3Ops)) (r : inp (@G R3Ops)), wf_inp a -> wf_inp r ->
+  let '(a', r') := multi_anchor a r in
+  wf_inp a' /\ wf_inp r' /\
+  (is_scalar r' = false -> is_scalar a' = false -> ilen a' = ilen r') /\
+  ilen r' = Z.max (ilen r) (match a with Scalar _ => 1 | Vector xs => zlen xs end) /\
+  (forall j, 0 <= j < ilen r' ->
+     iget gone r' j = iget gone r (Z.min j (ilen r - 1)) /\
+     iget vzero a' j = iget vzero a (Z.min j (ilen a - 1))).
+Proof. exact (@multi_anchor_wf R3Ops). Qed.
+
+Theorem C09_set_position_R3 : forall (o : @obj R3Ops) (p : inp (@V R3Ops)), wf o -> wf_inp p ->
+  set_position o p = {| pos := as_rows p; ori := spec_fit gone (ilen p) (ori o) |}.
+Proof. exact (@set_position_spec R3Ops). Qed.
+
+Theorem C09_set_orientation_R3 : forall (o : @obj R3Ops) (r : option (inp (@G R3Ops))),
+  wf o -> match r with Some r => wf_inp r | None => True end ->
+  let qs := match r with None => [gone] | Some r => as_rows r end in
+  set_orientation o r = {| pos := spec_fit vzero (zlen qs) (pos o); ori := qs |}.
+Proof. exact (@set_orientation_spec R3Ops). Qed.
+
+Print Assumptions C09_multi_anchor_R3.
+Print Assumptions C09_set_position_R3.
+Print Assumptions C09_set_orientation_R3.
